@@ -90,6 +90,29 @@ Theorem C06_ix_validb_sound : forall ix shape, ix_validb shape ix = true -> ix_v
 Proof. exact ix_validb_spec. Qed.
 Print Assumptions C06_ix_validb_sound.
 
+(* ... and the hypothesis on the canonical form is discharged for every index NumPy accepts
+   structurally: ints within [-n, n), non-zero steps, None axes anywhere, at most one Ellipsis,
+   not more real entries than axes (pref_valid matches entries to axes in order; after an
+   Ellipsis they are matched against the trailing axes) *)
+Theorem C06_fileslice_eq_numpy_noell : forall (h : heuristic) file l shape w off o,
+  h_ok h -> 0 < w -> 0 <= off ->
+  Forall (fun n => 0 <= n) shape -> count_real l <= zlen shape -> pref_valid shape l ->
+  off + w * prod shape <= zlen file ->
+  fileslice_h h file l shape w off o = numpy_slice file l shape w off o
+  /\ exists r, numpy_slice file l shape w off o = Ok r.
+Proof. exact fileslice_eq_numpy_noell. Qed.
+Print Assumptions C06_fileslice_eq_numpy_noell.
+
+Theorem C06_fileslice_eq_numpy_ell : forall (h : heuristic) file l1 l2 shape w off o,
+  h_ok h -> 0 < w -> 0 <= off ->
+  Forall (fun n => 0 <= n) shape -> count_real l1 + count_real l2 <= zlen shape ->
+  pref_valid shape l1 -> pref_valid (skipn (Z.to_nat (zlen shape - count_real l2)) shape) l2 ->
+  off + w * prod shape <= zlen file ->
+  fileslice_h h file (l1 ++ IEll :: l2) shape w off o = numpy_slice file (l1 ++ IEll :: l2) shape w off o
+  /\ exists r, numpy_slice file (l1 ++ IEll :: l2) shape w off o = Ok r.
+Proof. exact fileslice_eq_numpy_ell. Qed.
+Print Assumptions C06_fileslice_eq_numpy_ell.
+
 (* non-vacuity: a 3-D C-order array, negative step, int, new axis and Ellipsis; the
    hypotheses hold and both sides compute to the same non-trivial result *)
 Example C06_nonvacuous :
